@@ -84,6 +84,7 @@ type h265Held struct {
 	panicked, err bool
 	pkt           interface{}
 	raw           []byte
+	kept          *h265Kept // sub-parser value used directly: the accessor results kept, see h265Kept
 }
 
 // h265Parse feeds payload to p (nil: a fresh H265Packet) and returns what the caller holds.
@@ -115,11 +116,74 @@ func (h h265Held) view(t *Toks) {
 		return
 	}
 	var tmp Toks
-	if try(func() { h265WriteView(&tmp, h.pkt, h.raw) }) {
+	if try(func() {
+		if h.kept != nil {
+			h.kept.write(&tmp)
+		} else {
+			h265WriteView(&tmp, h.pkt, h.raw)
+		}
+	}) {
 		t.Panic()
 		return
 	}
 	t.Ok().Tok(tmp.String())
+}
+
+// h265Kept is what a caller keeps of one decoded packet when it uses an exported sub-parser VALUE
+// directly and re-uses that value for the next payloads: the values the accessors returned right
+// after the successful Unmarshal (header words, the DONL pointer, the payload slice, the FirstUnit()
+// pointer and the OtherUnits() slice).  They are re-read (pointers followed, units asked for their
+// NalUnit()/NALUSize()/DOND()) only after the later payloads have been decoded.
+type h265Kept struct {
+	kind   string
+	hdr    codecs.H265NALUHeader
+	donl   *uint16
+	pay    []byte
+	first  *codecs.H265AggregationUnitFirst
+	others []codecs.H265AggregationUnit
+}
+
+type h265SubParser interface {
+	Unmarshal(payload []byte) ([]byte, error)
+}
+
+// h265SubParse feeds payload to the sub-parser value p and returns what the caller holds: outcome and
+// the accessor results of this decode.
+func h265SubParse(p h265SubParser, payload []byte) h265Held {
+	h := h265Held{raw: payload}
+	var err error
+	h.panicked = try(func() {
+		_, err = p.Unmarshal(payload)
+		if err != nil {
+			return
+		}
+		switch v := p.(type) {
+		case *codecs.H265SingleNALUnitPacket:
+			h.kept = &h265Kept{kind: "single", hdr: v.PayloadHeader(), donl: v.DONL(), pay: v.Payload()}
+		case *codecs.H265AggregationPacket:
+			h.kept = &h265Kept{kind: "ap", hdr: codecs.H265NALUHeader(binary.BigEndian.Uint16(payload[0:2])),
+				first: v.FirstUnit(), others: v.OtherUnits()}
+		}
+	})
+	h.err = err != nil
+	return h
+}
+
+func (k *h265Kept) write(t *Toks) {
+	t.Tok(k.kind)
+	h265WriteHdr(t, k.hdr)
+	if k.kind == "single" {
+		h265OptU16(t, k.donl)
+		t.Bytes(k.pay)
+		return
+	}
+	h265OptU16(t, k.first.DONL())
+	t.Nat(int(k.first.NALUSize())).Bytes(k.first.NalUnit())
+	t.Nat(len(k.others))
+	for _, u := range k.others {
+		h265OptU8(t, u.DOND())
+		t.Nat(int(u.NALUSize())).Bytes(u.NalUnit())
+	}
 }
 
 func h265Head(payload []byte) bool {
@@ -436,25 +500,47 @@ func h265UnitSize(r *Rand, mtu int) int {
 	return n
 }
 
+// h265Flags are the exported option fields of H265Payloader as they stand during one Payload call.
+type h265Flags struct{ AddDONL, Skip bool }
+
+// h265RtCase: a history on ONE payloader whose options stay as constructed.
 func h265RtCase(c *Case, addDONL, skip bool, mtu int, frames [][]h265Framed) {
-	c.I.Bool(addDONL).Bool(skip).Nat(mtu).Nat(len(frames))
-	for _, f := range frames {
-		c.I.Nat(len(f))
+	flags := make([]h265Flags, len(frames))
+	for i := range flags {
+		flags[i] = h265Flags{addDONL, skip}
+	}
+	h265RtCaseF(c, mtu, flags, frames)
+}
+
+// h265RtCaseF: a history on ONE payloader; before call k the caller sets the exported fields AddDONL and
+// SkipAggregation to flags[k] by hand (they are plain exported fields, nothing says they are frozen
+// after the first call).  Input: `<mtu> <n> (<addDONL> <skipAgg> <units>)* <rx>`.
+func h265RtCaseF(c *Case, mtu int, flags []h265Flags, frames [][]h265Framed) {
+	c.I.Nat(mtu).Nat(len(frames))
+	flipped := false
+	for k, f := range frames {
+		c.I.Bool(flags[k].AddDONL).Bool(flags[k].Skip).Nat(len(f))
 		for _, u := range f {
 			c.I.Nat(u.SC).Bytes(u.Unit)
 		}
+		if flags[k] != flags[0] {
+			flipped = true
+		}
+	}
+	if flipped {
+		c.Tag("options-set-by-hand-between-calls")
 	}
 	// Receiving side: half of the cases parse every payload of the whole history with ONE H265Packet
 	// (the others with a fresh one per payload).  In both the decoded packets are kept and their
-	// accessors are read only after the last payload has been parsed.
+	// accessors are read only after the last payload has been parsed.  Each call's packets are parsed
+	// with the DONL setting that call was sent with (WithDONL on the reused receiver).
 	var rx *codecs.H265Packet
 	if c.R.Bool() {
 		rx = &codecs.H265Packet{}
-		rx.WithDONL(addDONL)
 		c.Tag("rx=one-reused-H265Packet")
 	}
 	c.I.Bool(rx != nil)
-	p := &codecs.H265Payloader{AddDONL: addDONL, SkipAggregation: skip}
+	p := &codecs.H265Payloader{}
 	c.O.Nat(len(frames))
 	kinds := map[string]bool{}
 	// payload the whole history first, decode afterwards: what a call returned must still be that
@@ -464,7 +550,8 @@ func h265RtCase(c *Case, addDONL, skip bool, mtu int, frames [][]h265Framed) {
 		panicked bool
 	}
 	all := make([]h265Out, 0, len(frames))
-	for _, f := range frames {
+	for k, f := range frames {
+		p.AddDONL, p.SkipAggregation = flags[k].AddDONL, flags[k].Skip
 		// the frame is handed over exactly sized or as a window of a larger array (payWindow)
 		_, buf := payWindow(h265FrameBytes(f), mtu)
 		var r h265Out
@@ -473,13 +560,26 @@ func h265RtCase(c *Case, addDONL, skip bool, mtu int, frames [][]h265Framed) {
 		scribbleSpare(r.out...)
 		all = append(all, r)
 	}
+	// Every payload also goes to a second receiver: ONE H265Packet with SetZeroAllocation(true) for the
+	// whole history, its accessors read right after each payload was decoded; the unchanged predicate
+	// is evaluated on what it reports once more.
+	z := &codecs.H265Packet{}
+	z.SetZeroAllocation(true)
 	held := make([][]h265Held, len(frames))
+	zviews := make([][]string, len(frames))
 	for k := range frames {
 		if all[k].panicked {
 			continue
 		}
+		if rx != nil {
+			rx.WithDONL(flags[k].AddDONL)
+		}
+		z.WithDONL(flags[k].AddDONL)
 		for _, pl := range all[k].out {
-			held[k] = append(held[k], h265Parse(rx, addDONL, pl))
+			held[k] = append(held[k], h265Parse(rx, flags[k].AddDONL, pl))
+			var zt Toks
+			h265Parse(z, flags[k].AddDONL, cloneBytes(pl)).view(&zt)
+			zviews[k] = append(zviews[k], zt.String())
 		}
 	}
 	for k, f := range frames {
@@ -493,6 +593,7 @@ func h265RtCase(c *Case, addDONL, skip bool, mtu int, frames [][]h265Framed) {
 			c.O.Bytes(pl)
 			held[k][i].view(&c.O)
 			c.O.Bool(h265Head(pl))
+			c.O.Tok(zviews[k][i])
 			if len(pl) >= 2 {
 				switch (pl[0] >> 1) & 63 {
 				case 48:
@@ -510,15 +611,15 @@ func h265RtCase(c *Case, addDONL, skip bool, mtu int, frames [][]h265Framed) {
 				kinds["size=mtu-4..mtu+1"] = true
 			}
 		}
+		if flags[k].AddDONL {
+			kinds["donl"] = true
+		}
+		if flags[k].Skip {
+			kinds["skipagg"] = true
+		}
 	}
 	for k := range kinds {
 		c.Tag(k)
-	}
-	if addDONL {
-		c.Tag("donl")
-	}
-	if skip {
-		c.Tag("skipagg")
 	}
 }
 
@@ -624,6 +725,34 @@ func genH265Rt(x *Ctx) {
 			}
 			wf := !r.Chance(1, 12)
 			nf := r.Pick(1, 1, 2, 3)
+			// AddDONL and SkipAggregation are exported fields: in a quarter of the histories the caller
+			// changes them by hand between Payload calls on the same payloader (at least one call is sent
+			// with options other than the first call's)
+			flip := r.Chance(1, 4)
+			if flip {
+				nf = r.Pick(2, 2, 3, 4)
+			}
+			flags := make([]h265Flags, nf)
+			for j := range flags {
+				flags[j] = h265Flags{cf[0], cf[1]}
+			}
+			if flip {
+				at := r.Range(1, nf-1)
+				for j := at; j < nf; j++ {
+					o := cfgs[r.Intn(4)]
+					if j == at {
+						// differs from the first call's options, in AddDONL two times out of three
+						for o == cf || (o[0] == cf[0] && r.Chance(1, 2)) {
+							o = cfgs[r.Intn(4)]
+						}
+						flags[j] = h265Flags{o[0], o[1]}
+					} else if r.Bool() {
+						flags[j] = h265Flags{o[0], o[1]}
+					} else {
+						flags[j] = flags[j-1]
+					}
+				}
+			}
 			frames := make([][]h265Framed, nf)
 			for j := range frames {
 				k := r.Pick(1, 1, 2, 3, r.Range(1, 7))
@@ -635,8 +764,8 @@ func genH265Rt(x *Ctx) {
 					if sz > 3000 {
 						sz = r.Range(3, 3000)
 					}
-					if cf[0] && sz > mtu-3 && mtu >= 6 {
-						// keep well-formed AddDONL streams out of the known-finding region
+					if flags[j].AddDONL && sz > mtu-3 && mtu >= 6 {
+						// keep well-formed AddDONL calls out of the known-finding region
 						sz = r.Range(3, mtu-3)
 					}
 					if !wf && r.Chance(1, 3) {
@@ -662,7 +791,7 @@ func genH265Rt(x *Ctx) {
 			if !wf {
 				c.Tag("not-wf")
 			}
-			h265RtCase(c, cf[0], cf[1], mtu, frames)
+			h265RtCaseF(c, mtu, flags, frames)
 		})
 	}
 }
@@ -689,6 +818,49 @@ func genH265RtDonlFu(x *Ctx) {
 			f := []h265Framed{{4, h265GenUnit(r, r.Range(3, mtu-3), true)}, {3, h265GenUnit(r, mtu+r.Range(-2, 40), true)},
 				{4, h265GenUnit(r, r.Range(3, mtu-3), true)}}
 			h265RtCase(c, true, r.Bool(), mtu, [][]h265Framed{f, f[:2]})
+		})
+	}
+	// the options set by hand between calls, inside the region: a call with AddDONL that fragments a
+	// unit and, before or after it on the same payloader at the same MTU, a call without AddDONL that
+	// fragments one too.  The calls without AddDONL are outside the finding and must be exact.
+	for _, dir := range []bool{false, true} {
+		for mtu := 6; mtu <= 12; mtu++ {
+			for _, n := range []int{mtu - 1, mtu + 1, 2*mtu + 6} {
+				dir, mtu, n := dir, mtu, n
+				x.Case(func(c *Case) {
+					r := c.R
+					mk := func(n int) []h265Framed { return []h265Framed{{r.Pick(0, 3, 4), h265GenUnit(r, n, true)}} }
+					flags := []h265Flags{{dir, r.Bool()}, {!dir, r.Bool()}}
+					frames := [][]h265Framed{mk(n), mk(r.Pick(n, mtu-1, 2*mtu+6, 3*mtu))}
+					if r.Bool() {
+						flags = append(flags, h265Flags{dir, r.Bool()})
+						frames = append(frames, mk(r.Pick(n, mtu+1, 2*mtu)))
+					}
+					h265RtCaseF(c, mtu, flags, frames)
+				})
+			}
+		}
+	}
+	for i, n := 0, x.N(24, 400); i < n; i++ {
+		x.Case(func(c *Case) {
+			r := c.R
+			mtu := r.Pick(r.Range(6, 64), r.Range(6, 24), 1200)
+			nf := r.Range(2, 4)
+			flags := make([]h265Flags, nf)
+			frames := make([][]h265Framed, nf)
+			donlAt := r.Intn(nf)
+			for j := range frames {
+				flags[j] = h265Flags{j == donlAt || r.Chance(1, 3), r.Bool()}
+				k := r.Pick(1, 1, 2, 3)
+				for q := 0; q < k; q++ {
+					sz := r.Pick(mtu+r.Range(-2, 40), mtu+r.Range(-2, 40), r.Range(3, mtu-3))
+					if j == donlAt && q == 0 {
+						sz = mtu + r.Range(-2, 40)
+					}
+					frames[j] = append(frames[j], h265Framed{r.Pick(3, 4), h265GenUnit(r, sz, true)})
+				}
+			}
+			h265RtCaseF(c, mtu, flags, frames)
 		})
 	}
 }
@@ -721,40 +893,87 @@ func h265DecCase(c *Case, mode bool, d *h265Desc, cut int) {
 	// the form under test (a fragment among fragments, …).
 	var before, after [][]byte
 	var rx *codecs.H265Packet
+	var sub h265SubParser
+	kindOf := map[string]int{"single": 0, "ap": 1, "fu": 2, "paci": 3}[d.Kind]
+	neighbour := func(same bool) []byte {
+		k := kindOf
+		if !same && c.R.Chance(1, 3) {
+			k = c.R.Intn(4)
+		}
+		n := h265GenDesc(c.R, k, mode)
+		if len(n.Payload) > 24 {
+			n.Payload = n.Payload[:24]
+		}
+		h265FixSemantics(c.R, n)
+		return n.encode()
+	}
 	if c.R.Bool() {
 		rx = &codecs.H265Packet{}
 		rx.WithDONL(mode)
-		kindOf := map[string]int{"single": 0, "ap": 1, "fu": 2, "paci": 3}[d.Kind]
-		neighbour := func() []byte {
-			k := kindOf
-			if c.R.Chance(1, 3) {
-				k = c.R.Intn(4)
-			}
-			n := h265GenDesc(c.R, k, mode)
-			if len(n.Payload) > 24 {
-				n.Payload = n.Payload[:24]
-			}
-			h265FixSemantics(c.R, n)
-			return n.encode()
-		}
 		for i, k := 0, c.R.Pick(0, 1, 1, 2); i < k; i++ {
-			before = append(before, neighbour())
+			before = append(before, neighbour(false))
 		}
 		if len(before) == 0 || c.R.Bool() {
-			after = append(after, neighbour())
+			after = append(after, neighbour(false))
 		}
 		c.Tag("rx=H265Packet-with-history")
+	} else if kindOf <= 1 && c.R.Bool() {
+		// The exported sub-parser of the form under test used directly, as ONE value that decodes the
+		// stream's packets of that form one after the other (H265SingleNALUnitPacket,
+		// H265AggregationPacket: every successful Unmarshal sets everything their accessors read).  The
+		// caller keeps what the accessors returned for the payload under test (h265Kept) and reads it
+		// after the value has decoded further payloads.
+		if kindOf == 0 {
+			q := &codecs.H265SingleNALUnitPacket{}
+			q.WithDONL(mode)
+			sub = q
+		} else {
+			q := &codecs.H265AggregationPacket{}
+			q.WithDONL(mode)
+			sub = q
+		}
+		for i, k := 0, c.R.Pick(0, 1, 1, 2); i < k; i++ {
+			before = append(before, neighbour(true))
+		}
+		for i, k := 0, c.R.Pick(0, 1, 1, 2); i < k; i++ {
+			after = append(after, neighbour(true))
+		}
+		c.Tag("rx=sub-parser-value-reused")
 	}
-	c.I.BytesList(before).BytesList(after)
+	c.I.BytesList(before).BytesList(after).Bool(sub != nil)
+	// Every case also hands `before` and the payload to a second receiver: ONE H265Packet with
+	// SetZeroAllocation(true) (the switch every depacketizer of the package has).  Its accessors are read
+	// right after the payload under test was decoded (in that mode a caller does not hold decoded packets
+	// across calls), and the unchanged predicate is evaluated on them once more.
+	z := &codecs.H265Packet{}
+	z.WithDONL(mode)
+	z.SetZeroAllocation(true)
 	for _, b := range before {
-		h265Parse(rx, mode, b)
+		h265Parse(z, mode, cloneBytes(b))
 	}
-	h := h265Parse(rx, mode, in)
-	for _, a := range after {
-		h265Parse(rx, mode, a)
+	var zview Toks
+	h265Parse(z, mode, cloneBytes(in)).view(&zview)
+	var h h265Held
+	if sub != nil {
+		for _, b := range before {
+			h265SubParse(sub, b)
+		}
+		h = h265SubParse(sub, in)
+		for _, a := range after {
+			h265SubParse(sub, a)
+		}
+	} else {
+		for _, b := range before {
+			h265Parse(rx, mode, b)
+		}
+		h = h265Parse(rx, mode, in)
+		for _, a := range after {
+			h265Parse(rx, mode, a)
+		}
 	}
 	h.view(&c.O)
 	c.O.Bool(h265Head(in))
+	c.O.Tok(zview.String())
 }
 
 func genH265Dec(x *Ctx) {
